@@ -63,9 +63,11 @@ fn band_version_requirement() -> semver::VersionReq {
 }
 
 fn band_version_supported(version: &str) -> bool {
+    // A version string that can't be parsed (for example in a damaged band head) is
+    // simply not a supported version.
     semver::Version::parse(version)
         .map(|sv| band_version_requirement().matches(&sv))
-        .unwrap()
+        .unwrap_or(false)
 }
 
 /// Each backup makes a new `band` containing an index directory.
